@@ -164,12 +164,23 @@ Definition chk_leak (c : case) : bool :=
   (o_pending (ob c) <=? N.of_nat (length (dedup_bytes (live_digests c)))) &&
   negb (taken_after_abandon (ops c) [] []).
 
+(* a well-formed decision for the digest of a pending, handed-over bid reaches it: where the machine of
+   model/ProviderSvc.v (theorems C12_at_most_once / C12_no_leak: the entry of a digest belongs to the call
+   that registered it last, unless an abandon of an equal-digest call removed it) delivers a value to a call
+   that both sides report as handed over, the implementation must have delivered it too *)
+Definition chk_not_dropped (c : case) : bool :=
+  let s := model_state c in
+  forallb (fun co => match co_vals (predict_call s (co_h co)), co_vals co with
+                     | [_], [] => negb ((co_res co =? 2) && (co_res (predict_call s (co_h co)) =? 2))
+                     | _, _ => true end) (o_calls (ob c)).
+
 Definition violation (c : case) : option string :=
   if negb (chk_forwarded_valid c) then Some "forwarded-invalid"%string
   else if negb (chk_fields c) then Some "fields-differ"%string
   else if negb (chk_delivery c) then Some "double-delivery"%string
   else if negb (chk_stream c) then Some "stream-ended"%string
   else if negb (chk_leak c) then Some "leak"%string
+  else if negb (chk_not_dropped c) then Some "decision-dropped"%string
   else None.
 
 Definition violations (cs : list case) : list (N * string) :=
